@@ -337,6 +337,48 @@ func c16Case(w *fw.W, idx int, r *fw.Rand) {
 			w.Sample(map[string]any{"class": "program", "family": fam, "cfg": cfg.String(), "src": trunc(src, 160)})
 		}
 	default:
+		if r.P(1, 8) {
+			// the host's default-sides expression uses family dice; between two macro-free inputs
+			// the host switches families off (by field assignment or through SetConfig on a copy):
+			// no script value exists, so whatever the second input rolls is compiled from the
+			// host's expression under the switches that hold now
+			cfg := c16Cfg(15)
+			cfg.OpLimit, cfg.ParseLimit = 3000, 10000000
+			cfg.DefSide = r.Pick([]string{"b", "f", "2a5", "3c8", "p1 + 1", "b2 + 3c8", "f + 2a5"})
+			vm := cfg.NewVM()
+			c16NoRuntime = false
+			first := r.Pick([]string{"d", "2d + 1", "d + d", "3d"})
+			hist := []string{"def=" + cfg.DefSide, first}
+			desc := fmt.Sprintf("families=1111 history=%q", hist)
+			w.Begin(idx, desc)
+			c16Run(w, idx, vm, first, desc, true)
+			cfg2 := c16Cfg(r.Intn(16))
+			cfg2.OpLimit, cfg2.ParseLimit, cfg2.DefSide = cfg.OpLimit, cfg.ParseLimit, cfg.DefSide
+			how := "field assignment"
+			if k3 := r.Intn(3); k3 == 0 {
+				cfg2.Apply(vm)
+			} else if k3 == 1 {
+				// a configuration object built from scratch, as a host does per message
+				how = "SetConfig(fresh)"
+				nc := cfg2.NewVM().Config
+				vm.SetConfig(&nc)
+			} else {
+				how = "SetConfig(copy)"
+				nc := vm.Config
+				nc.EnableDiceWoD, nc.EnableDiceCoC, nc.EnableDiceFate, nc.EnableDiceDoubleCross = cfg2.WoD, cfg2.CoC, cfg2.Fate, cfg2.DC
+				vm.SetConfig(&nc)
+			}
+			second := r.Pick([]string{"d", "2d + 1", "d + d", "3d", first})
+			hist = append(hist, "(host sets "+cfg2.String()+" by "+how+")", second)
+			desc = fmt.Sprintf("families=1111 history=%q", hist)
+			w.Begin(idx, desc)
+			c16Run(w, idx, vm, second, desc, true)
+			w.Eval(2)
+			w.Count("sequences", 1)
+			w.Count("default_sides_reconfigurations", 1)
+			w.Note(fw.Hash64(strings.Join(hist, "|")))
+			return
+		}
 		// sequences mixing macro lines and plain inputs on one VM
 		bits := r.Intn(16)
 		cfg := c16Cfg(bits)
@@ -466,7 +508,7 @@ func init() {
 		Floors: func(tier string) map[string]int64 {
 			return map[string]int64{"short_parses": 90000, "programs_accepted": 10000, "macro_isolation_checks": 5000, "units_scanned": 80000}
 		},
-		Rule:        "(1) every string of length ≤3 (quick) / ≤4 (thorough) over {a,b,c,f,p,d,A,F,m,k,q,1,2,0,(,),+,space} plus a sample of lengths 5–8, each under all 16 family settings (exhaustive for the short lengths); (2) generated programs, dice inside functions/computed values/templates, DefaultDiceSideExpr with family dice, ^st inputs × random flags incl. DisableStmts/NDice/Bitwise; (3) sequences mixing '// #EnableDice <family> <bool>' macros and plain inputs. Monitor at the parsed-program hook: no opcode of a disabled family / statement / Nd / bitwise class in any compilation unit without macro, sub-VM flags equal root flags, Config unchanged across every run, macro-free input compiles as on a fresh VM. distinct = hash(input, configuration)",
+		Rule:        "(1) every string of length ≤3 (quick) / ≤4 (thorough) over {a,b,c,f,p,d,A,F,m,k,q,1,2,0,(,),+,space} plus a sample of lengths 5–8, each under all 16 family settings (exhaustive for the short lengths); (2) generated programs, dice inside functions/computed values/templates, DefaultDiceSideExpr with family dice, ^st inputs × random flags incl. DisableStmts/NDice/Bitwise; (3) sequences mixing '// #EnableDice <family> <bool>' macros and plain inputs. Monitor at the parsed-program hook: no opcode of a disabled family / statement / Nd / bitwise class in any compilation unit without macro, sub-VM flags equal root flags, Config unchanged across every run, macro-free input compiles as on a fresh VM. distinct = hash(input, configuration) (4) default-sides expressions with family dice: 'd', then the host switches families off (field assignment, SetConfig on a copy, SetConfig on a fresh configuration), then 'd' again with the run-time instruction watch on.",
 		Assumptions: []string{"opcodes are attributed to the compilation unit that emitted them", "macro spelling as in roll.peg: // #EnableDice <wod|coc|fate|doublecross> <true|false>"},
 	})
 }
